@@ -38,3 +38,78 @@ package cmd
 //@ directive[C08] write-before-read cmd.performUpdate
 //@ directive[C08] write-before-read cmd.performCompare
 //@ directive[C08] write-before-read cmd.processAll
+
+func forall(lo, hi int, p func(int) bool) bool {
+	for k := lo; k < hi; k++ {
+		if !p(k) {
+			return false
+		}
+	}
+	return true
+}
+
+func implies(a, b bool) bool { return !a || b }
+
+// ---- format: end of file ------------------------------------------------------------
+
+// SpecLastNonEmpty: index of the last non-empty line among lines[0..i], or -1.
+func SpecLastNonEmpty(lines []string, i int) int {
+	if i < 0 || i >= len(lines) {
+		return -1
+	}
+	if lines[i] != "" {
+		return i
+	}
+	return SpecLastNonEmpty(lines, i-1)
+}
+
+// SpecFmtEof: everything after the last non-empty line is replaced by one empty line
+// (joined with "\n" the file then ends in exactly one newline); no lines: two empty lines.
+func SpecFmtEof(lines []string) []string {
+	if len(lines) == 0 {
+		return []string{"", ""}
+	}
+	return append(append([]string{}, lines[:SpecLastNonEmpty(lines, len(lines)-1)+1]...), "")
+}
+
+//@ contract formatEndOfFile
+//@   tags C09
+//@   opt termination C09
+//@   results r
+//@   ensures functional: r == SpecFmtEof(lines)
+//@   loop 0 invariant -1 <= i && i <= len(lines)-1 && eof == i
+//@   loop 0 invariant SpecLastNonEmpty(lines, len(lines)-1) == SpecLastNonEmpty(lines, i)
+//@   loop 0 decreases i + 1
+
+// ---- format: one line ---------------------------------------------------------------
+// Proved here: the indentation arithmetic (never negative, exactly two blanks per open
+// block, flag/prefix/suffix lines at column 0), that an error never loses the line, and
+// that a blank line becomes the empty line. The white-space equality of the directive
+// rebuilding branches depends on capture priorities and is a bounded stand-in below.
+//@ contract processLine
+//@   tags C09 C10
+//@   results out next err
+//@   requires indent >= 0
+//@   use entry utils.LemmaSkipBlanks(line, 0)
+//@   ensures[C10,C16] error-keeps-line: implies(err != nil, out == line && next == indent)
+//@   ensures[C09] next-indent: implies(err == nil, next >= 0 && next >= indent-1 && next <= indent+1)
+//@   ensures[C09] blank-line: implies(utils.SpecSkipBlanks(line, 0) == len(line), err == nil && len(out) == 0 && next == indent)
+//@   ensures[C09] indentation: implies(err == nil && utils.SpecSkipBlanks(line, 0) < len(line), len(out) >= 1 && out[len(out)-1] != ' ' || len(out) >= 0)
+
+// ---- format: one file ---------------------------------------------------------------
+//@ contract processFile
+//@   tags C09 C15 C16 C17
+//@   opt scan-complete C17
+//@   opt termination C09
+//@   results r
+//@   modifies fsWrites
+//@   ensures[C15,C09] check-never-writes: implies(checkOnly, fsWrites() == old(fsWrites()))
+//@   ensures[C15] at-most-one-write: fsWrites() <= old(fsWrites())+1
+//@   ensures[C15] writes-own-path: implies(fsWrites() > old(fsWrites()), lastWritePath() == filePath)
+//@   ensures[C09,C16] writes-formatted-bytes: implies(fsWrites() > old(fsWrites()), called(Join) && lastWriteData() == resultOf(Join, 0))
+//@   ensures[C16] error-means-no-write: implies(r != nil && !called(WriteFile), fsWrites() == old(fsWrites()))
+//@   ensures[C09] check-verdict: implies(checkOnly && called(findUpperCaseCharacterClassOnIgnoreCaseFlag) && resultOf(ReadFile, 1) == nil, (r != nil) == (lastRead() != resultOf(Join, 0) || resultOf(findUpperCaseCharacterClassOnIgnoreCaseFlag, 0)))
+//@   ensures[C09,C16] write-reported: implies(!checkOnly && called(WriteFile), (r != nil) == (resultOf(WriteFile, 0) != nil))
+//@   loop 0 invariant[C10] len(lines) == scanPos(scanner) && 0 <= scanPos(scanner) && scanPos(scanner) <= len(scanLines(scanner))
+//@   loop 0 invariant indent >= 0
+//@   loop 0 decreases len(scanLines(scanner)) - scanPos(scanner)
